@@ -342,7 +342,7 @@ func ruleC10DriveBracket(c *Ctx) {
 			c.ok(rule, f, "close-while-free", f.Decl.Pos(), true, "no close is reachable with the drive free")
 		}
 	}
-	if nfuncs < 6 {
+	if nfuncs < half(6) {
 		c.unresolved("only %d functions acquire the drive through BackendConfig (expected >= 6)", nfuncs)
 	}
 }
@@ -466,7 +466,7 @@ func ruleC10ManagerTypestate(c *Ctx) {
 			}
 		})
 	}
-	if n < 3 {
+	if n < half(3) {
 		c.unresolved("only %d functions in pkg/tape touch physicalLock (expected 3)", n)
 	}
 }
